@@ -47,9 +47,10 @@ CLAIMED.update({
  'C07': dict(
    technique='Coq frame/projection theorems over the transfer registry + Coq small-step interleaving model of the registry as a concurrent object (listener, reaper, N sub-server threads: lock discipline, no deadlock, listener progress) + in-process interleavings + scheduler-shim differential check + real threaded UDP tier',
    text='Theorems (bookkeeping logic, any number of transfers, every interleaving): events for transfer a leave b untouched; the projection of a '
-        'global run on a equals a solo run, so C01 applies to each; accepting a request never alters a running transfer; the registry as a CONCURRENT object (every interleaving of the listener in add, the reaper in run and any number of sub-server threads, at the granularity of one lock / dictionary / flag operation): the table is touched and iterated only by the lock holder, no reachable state is a deadlock, the listener is blocked only for the rest of the holder s section (add completes after boundedly many fair rounds), add never leaves two live transfers for one TID. Tie: digests and lock-placement facts of TFTPSubServers regenerated from the source; the real TFTPSubServers under a deterministic scheduler shim vs the extracted model; 2-6 real '
+        'global run on a equals a solo run, so C01 applies to each; accepting a request never alters a running transfer; the registry as a CONCURRENT object (every interleaving of the listener in add, the reaper in run and any number of sub-server threads, at the granularity of one lock / dictionary / flag operation): the table is touched and iterated only by the lock holder, no reachable state is a deadlock, the listener is blocked only for the rest of the holder s section (add completes after boundedly many fair rounds), add never leaves two live transfers for one TID; the sub-server binds an ephemeral port WITHOUT address / port reuse (fact regenerated from tftpd.py -- with SO_REUSEADDR Linux hands the UDP port of a live transfer to a new one; found, fixed). Tie: digests and lock-placement facts of TFTPSubServers regenerated from the source; the real TFTPSubServers under a deterministic scheduler shim vs the extracted model; 2-6 real '
         'in-process transfers under seeded interleavings vs the extracted model; runtime tier with real threads and loopback UDP '
-        '(stalling / vanishing / erroring clients, latency of a fresh request).',
+        '(stalling / vanishing / erroring clients, latency of a fresh request); an own-port tier (1500 / 3000 simultaneously live sub-servers on real sockets: pairwise different ports) and '
+        'two handler objects alive at once in every interleaving of their setup / handle / finish phases (each client gets ITS block).',
    note=COMMON_NOTE + 'PARTIAL: progress statements assume weak fairness and that thread.join does not time out; pre-emption INSIDE a handler (below one primitive operation), the GIL and OS port allocation are not modelled and only observed by the real-UDP tier.',
    design='§7 C07'),
  'C08': dict(
@@ -82,16 +83,20 @@ CLAIMED.update({
         'board whose serial the first component spells in hexadecimal, from the configured address when ip= is set (exactly that address served, every '
         'other refused); unknown / non-hex serials and empty paths are not found. Tie: statement structure of resolve_path regenerated from server.py; '
         'int(s,16) and the resolution model compared with the real handler; end-to-end oracle: thousands of adversarial names from IPv4 / IPv6 / mapped '
-        'addresses against disk images with two FAT partitions, reply content compared with the extracted Coq reader of the configured partition.',
-   note=FAT_NOTE + 'The walk inside the volume is covered by C03 (reader) and the end-to-end oracle; pathlib parsing of the request and ipaddress are CPython. '
+        'addresses against disk images with two FAT partitions, reply content compared with the extracted Coq reader of the configured partition. '
+        'INSIDE the volume (FatVol.ProofsDots): FatPath does not normalise -- "." and ".." are looked up as the dot entries stored in every sub-directory -- and on a '
+        'consistent volume that walk over the on-disk records equals the stack walk over the volume\'s own tree (".." pops, "." stays, at the root neither exists), so '
+        'whatever the request spells reaches a node of THAT volume\'s tree or nothing (C02_volume_closed); tied to FatPath._resolve by dotted-path probes over grown volumes. '
+        'A reload scenario runs nobodd.server.main with a recording request loop: after the configuration is rewritten and a reload requested the table is the new one.',
+   note=FAT_NOTE + 'The byte-level reading of the volume is covered by C03 (reader) and the end-to-end oracle; pathlib parsing of the request and ipaddress are CPython. '
         'Found and fixed: str-vs-ipaddress comparison refused every ip= board.',
    design='§7 C02'),
  'C03': dict(
    technique='Coq proofs that the code\'s FAT-entry decoding, geometry and read arithmetic equal the bit-level / in-memory specification + three-way differential check',
    text='Theorems: the FAT entry read by Fat12/16/32Table equals the bit-level entry for every table and index; geometry (offsets, sizes, cluster count, type '
         'incl. the 4085/65525 boundaries) as computed by FatFileSystem.__init__ equals the specification reader; cluster n is bytes [data+(n-2)cs, +cs); ANY '
-        'sequence of seek/read/readinto/readall equals the same sequence on the in-memory content; timestamps are the specified bit fields; the directory decoder of the code (grouping, long-name joining incl. its restart rules) equals the specification decoder on every region whose runs are valid or absent. Tie: volumes '
-        'written by an independent writer over random legal geometries with fragmentation, long/short names, NT flags, deleted entries, labels, orphan runs: '
+        'sequence of seek/read/readinto/readall equals the same sequence on the in-memory content; timestamps are the specified bit fields; the directory decoder of the code (grouping, long-name joining incl. its restart rules) equals the specification decoder on every region whose runs are valid or absent; path resolution of ANY component list, "." and ".." included (looked up as the stored dot entries), on a volume in VolInv is the stack walk over the plain tree the volume holds, reaches only nodes of that tree, and obeys the laws of lexical normalisation below the root. Tie: volumes '
+        'written by an independent writer over random legal geometries with fragmentation, long/short names (characters outside the BMP whose surrogate pair straddles two long-name records included), NT flags, deleted entries, labels, orphan runs (among them the safe-save layout: live run + deleted entry + live entry of the same 8.3 name): '
         'tree read through nobodd == extracted Coq spec reader == what was written; models vs real classes; seek/read scripts; image unchanged.',
    note=FAT_NOTE + 'On regions with damaged runs the code and the specification reader legitimately differ in documented corners (a long-name record starting with 0, a deleted record inside a run); there the correspondence check ties the model to the code bug-for-bug; '
         'struct, memoryview, datetime and the code page are CPython. Found and fixed: lfn_valid rejected VFAT-legal names (listing raised).',
@@ -128,7 +133,7 @@ CLAIMED.update({
    design='§7 C10'),
  'C11': dict(
    technique='Coq proofs over a model of _get_names/_get_unique_sfn/_prefix_entries incl. round trip through the independent spec decoder + differential check + on-disk oracle',
-   text='Theorems: valid names = the VFAT rule; invalid / over-long names give ValueError with nothing produced; the records written decode (by the independent '
+   text='Theorems: valid names = the VFAT rule; invalid / over-long names give ValueError with nothing produced, and so do "." and ".." (references, never names: the guard of the FatPath mutators is a fact regenerated from path.py; found, fixed); the records written decode (by the independent '
         'specification reader, through surrogate joining) to exactly the name; ordinals, terminator, 0xFFFF padding, checksum, <= 20 records; pure 8.3 names '
         '(optionally lower base/extension) need no long records; alias bytes legal; alias differs from every existing alias and long name; numeric tail is the '
         'least free one; after creating a new name every case variant resolves to the new entry, every key that resolved before still resolves to the same entry and the listing grows by exactly that name. Tie: model vs real FatDirectory on thousands of names x pre-seeded '
